@@ -66,7 +66,8 @@ def discrete_case(ctx, k, bud):
         # the circuit went through earlier calls of the session (queries that may fill caches, EM updates, re-weighting, prune, save/load)
         t0, o0, _, _ = S.export_net(root)
         root, steps = Hist.apply_history(rs, root, ncols, int(rs.randint(2, 4)), count=ctx.count,
-                                         kinds=['query', 'query', 'em', 'em-step-direct', 'reassign-weights', 'prune-inplace', 'saveload', 'pickle'])
+                                         kinds=['query', 'em', 'em', 'em-step-direct', 'reassign-weights', 'prune-inplace', 'saveload', 'pickle'],
+                                         first=['query:sample', 'query:mpe', 'query:sample'])
         if not getattr(root, 'children', None):
             return
         assign_ids(root)
@@ -310,11 +311,11 @@ def run(ctx):
     ctx.extra['family_wise_error_level'] = FWER
     for k in range(n_disc):
         discrete_case(ctx, k, bud)
-        if ctx.n_new() >= 3:
+        if ctx.n_new(with_input_only=True) >= 3:
             break
     for k in range(n_cont):
         continuous_case(ctx, k, bud)
-        if ctx.n_new() >= 3:
+        if ctx.n_new(with_input_only=True) >= 3:
             break
     preds = [p for n in range(2, 5) for p in C.all_pred_vectors(n)]
     for k in range(n_clt):
@@ -327,7 +328,7 @@ def run(ctx):
             n = len(pred)
         scope = [int(v) for v in rs.choice(n + 2, n, replace=False)]
         clt_case(ctx, rs, scope, pred, bud, 'clt')
-        if ctx.n_new() >= 3:
+        if ctx.n_new(with_input_only=True) >= 3:
             break
     ctx.extra['pairs_used'] = bud.used
     ctx.extra['worst_deviation'] = bud.worst
